@@ -130,6 +130,16 @@ def capi():
         kb_fused = 0
     else:
         raise ExtractError("chewing_kbtype_Enumerate: unrecognised iterator: " + kb_body)
+    # chewing_config_get_str("chewing.selection_keys"): one `char` per key collected into a String, then CString::new
+    # (1 = that shape: the text is valid UTF-8 whatever integers the legacy setters stored; anything else is unreviewed)
+    gs_body = ws(fn_body(io, "chewing_config_get_str"))
+    if ('"chewing.selection_keys"=>ctx.sel_keys.0.iter().map(|&key|char::from(keyasu8)).collect(),' in gs_body
+            and "letOk(cstring)=CString::new(string)else{returnERROR;};" in gs_body
+            and "owned_into_raw(Owned::CString,cstring.into_raw())" in gs_body):
+        selkeys_getter = 1
+    else:
+        raise ExtractError("chewing_config_get_str: the selection_keys arm / CString construction is not the reviewed "
+                           "shape (chars collected into a String, CString::new, ERROR on NUL): " + gs_body[:600])
     # the other two collected iterators are made from owned, fused sources
     if "Box::new(candidates.into_iter())asBox<dynIterator<Item=String>>" not in ws(fn_body(io, "chewing_cand_Enumerate")):
         raise ExtractError("chewing_cand_Enumerate: the iterator is no longer Vec::into_iter of the collected candidates")
@@ -270,6 +280,9 @@ def capi():
     t += f"def userphraseIterBorrows : Nat := {uiter_borrows}\n\n"
     t += "/-- 1 = the keyboard-type counter of `chewing_kbtype_Enumerate` is fused (`.map_while(..).fuse()`), 0 = it is not -/\n"
     t += f"def kbIterFused : Nat := {kb_fused}\n\n"
+    t += ("/-- 1 = `chewing_config_get_str(\"chewing.selection_keys\")` collects `char::from(key as u8)` into a String and "
+          "hands out `CString::new(string)` (ERROR on an interior NUL) -/\n")
+    t += f"def selKeysGetterShape : Nat := {selkeys_getter}\n\n"
     t += "/-- every `pub [unsafe] extern \"C\" fn` of io.rs: (name, ctx parameter 0 none / 1 *const / 2 *mut, `unsafe {` blocks) -/\n"
     t += "def exportedFns : List (String × Nat × Nat) := " + \
          lean_list([f"({lean_str(n)}, {k}, {u})" for n, k, u in rows], 2) + "\n\n"
